@@ -46,6 +46,9 @@ type ExpConfig struct {
 	NoTimeout      bool   `json:"no_timeout,omitempty"`
 	// WaitForResult: sending_queue.wait_for_result (memory queue only): ConsumeX returns the export result.
 	WaitForResult bool `json:"wait_for_result,omitempty"`
+	// QueueDisabled: no sending queue and no batcher at all: ConsumeX is synchronous (obsreport, retry, timeout,
+	// export function on the caller's goroutine).
+	QueueDisabled bool `json:"queue_disabled,omitempty"`
 	// BlockOnOverflow: sending_queue.block_on_overflow: a producer waits for space instead of being refused.
 	BlockOnOverflow bool `json:"block_on_overflow,omitempty"`
 	Mutates         bool `json:"mutates,omitempty"`
@@ -55,10 +58,15 @@ type ExpConfig struct {
 func (c ExpConfig) Batched() bool { return c.Batch != BatchNone && c.Batch != "" }
 
 // WaitsForResult tells whether ConsumeX only returns when the export attempt chain has finished.
-func (c ExpConfig) WaitsForResult() bool { return c.Batch == BatchLegacyNoQueue || c.WaitForResult }
+func (c ExpConfig) WaitsForResult() bool {
+	return c.Batch == BatchLegacyNoQueue || c.WaitForResult || c.QueueDisabled
+}
 
 // EffectiveConsumers is the number of export calls that can be in flight at once.
 func (c ExpConfig) EffectiveConsumers() int {
+	if c.QueueDisabled {
+		return 1 << 20 // as many as there are callers
+	}
 	if c.Batched() {
 		return 1 // the helper forces one consumer and one flush worker when batching
 	}
@@ -67,6 +75,9 @@ func (c ExpConfig) EffectiveConsumers() int {
 
 // QueueKind names the queue for signatures.
 func (c ExpConfig) QueueKind() string {
+	if c.QueueDisabled {
+		return "none"
+	}
 	if c.Persistent {
 		return "persistent"
 	}
@@ -89,7 +100,7 @@ func (c ExpConfig) Class() string {
 // queue configuration is one the collector's own validation rejects.
 func (c ExpConfig) Options() ([]exporterhelper.Option, error) {
 	var opts []exporterhelper.Option
-	if c.Batch != BatchLegacyNoQueue {
+	if c.Batch != BatchLegacyNoQueue && !c.QueueDisabled {
 		q := exporterhelper.NewDefaultQueueConfig()
 		q.NumConsumers = c.Consumers
 		q.QueueSize = c.QueueSize
